@@ -149,9 +149,15 @@ fn run_worker(prop: &str, tier: &str, k: usize, n: usize, ctx: &mut Ctx) {
     "C12" => codec::c12_worker(tier, k, n, ctx),
     "C15" => jsonmc::c15_worker(tier, k, n, ctx),
     "C17" => {
+      let t0 = std::time::Instant::now();
       codec::c17_decode_worker(tier, k, n, ctx);
+      let t1 = std::time::Instant::now();
       jsonmc::c17_parser_worker(tier, k, n, ctx);
+      let t2 = std::time::Instant::now();
       props::c17_tree_worker(tier, k, n, ctx);
+      if std::env::var_os("VERIF_TIMING").is_some() {
+        eprintln!("C17 worker {k}: decoder {:?} parsers {:?} trees {:?}", t1 - t0, t2 - t1, t2.elapsed());
+      }
     }
     "C16" => rope_mc::worker(tier, k, n, ctx),
     "C18" => sched::worker(tier, k, n, ctx),
